@@ -112,7 +112,7 @@ def check_exit(ctx, out):
 
     # ---------------------------------------------------------------- C11.out
     m = 0
-    main = ctx.facts.bodies.get("bwbin::main")
+    main = ctx.main_view()
     writers = [(bb, tt) for bb, tt in b.calls() if callee_matches(tt, r"serde_json::to_writer_pretty$|serde_json::to_writer$")]
     if len(writers) == 1:
         wb, wt = writers[0]
